@@ -154,6 +154,20 @@ def _tracks(draw, ctx):
                   [T_ - t - 1 for T_ in later[:2] if T_ - t - 1 >= 0]
         mx = max_tick - t
         opts = [st.just(0), st.integers(0, min(mx, 400)), st.integers(0, mx)]
+        # lengths that stand in a relation to the rest of the chart: ending on / next to the following
+        # notes, as long as the gap just played, the previous note's length again, fractions of a beat
+        r = tmap["res"]
+        rel = {r, r // 2, r // 3, r // 4, 2 * r, 4 * r, r - 1, r + 1}
+        for d in (1, 2):
+            if j + d < len(ticks):
+                rel |= {ticks[j + d] - t - 1, ticks[j + d] - t, ticks[j + d] - t + 1}
+        if j:
+            rel.add(t - ticks[j - 1])
+            prev = notes[-1]["lens"]
+            rel |= set(prev) if isinstance(prev, list) else {prev}
+        rel = sorted(x for x in rel if 0 < x <= mx)
+        if rel:
+            opts.append(st.sampled_from(rel))
         if targets:
             opts.append(st.sampled_from([x for x in targets if x <= mx] or [0]))
             opts.append(st.sampled_from([x for x in targets if x <= mx] or [0]))
